@@ -106,3 +106,15 @@ package model
 //@   loop 0 invariant suffix-len: $k > first() ==> len(usecaseInfo) == $k || len(usecaseInfo) == $k - 1
 //@   loop 0 invariant suffix-same: $k > first() && len(usecaseInfo) == $k ==> (forall j int :: first() < j && j < $k ==> usecaseInfo[j] == $s[j]) && usecaseInfo[first()].Address == $s[first()].Address && usecaseInfo[first()].Actor == $s[first()].Actor && forall m int :: 0 <= m && m < len(usecaseInfo[first()].UseCaseSupport) ==> !named(usecaseInfo[first()].UseCaseSupport[m], useCaseName)
 //@   loop 0 invariant suffix-dropped: $k > first() && len(usecaseInfo) == $k - 1 ==> forall j int :: first() < j && j < $k ==> usecaseInfo[j - 1] == $s[j]
+
+//@ func (*NodeManagementUseCaseDataType).AddUseCaseSupport
+//@   requires n != nil && len(useCaseName) > 0 && address.Device != nil && address.Entity != nil
+//@   let I0 = n.UseCaseInformation
+//@   define E(info) = ucMatch(info, address, actor, "")
+//@   define anyElem = exists i int :: 0 <= i && i < len(I0) && E(I0[i])
+//@   spec first() int
+//@   axiom old(anyElem) ==> 0 <= first() && first() < len(I0) && E(I0[first()]) && forall j int :: 0 <= j && j < first() ==> !E(I0[j])
+//@   ensures[C20] new-element: !old(anyElem) ==> len(n.UseCaseInformation) == len(I0) + 1 && (forall j int :: 0 <= j && j < len(I0) ==> n.UseCaseInformation[j] == old(I0[j])) && ucMatch(n.UseCaseInformation[len(I0)], address, actor, "") && len(n.UseCaseInformation[len(I0)].UseCaseSupport) == 1 && named(n.UseCaseInformation[len(I0)].UseCaseSupport[0], useCaseName) && *n.UseCaseInformation[len(I0)].UseCaseSupport[0].UseCaseAvailable == useCaseAvailable && *n.UseCaseInformation[len(I0)].UseCaseSupport[0].UseCaseVersion == useCaseVersion
+//@   ensures[C20] existing-element: old(anyElem) ==> len(n.UseCaseInformation) == len(I0) && (forall j int :: 0 <= j && j < len(I0) && j != first() ==> n.UseCaseInformation[j] == old(I0[j])) && n.UseCaseInformation[first()].Address == old(I0[first()].Address) && n.UseCaseInformation[first()].Actor == old(I0[first()].Actor)
+//@   ensures[C20] existing-element-has-it: old(anyElem) ==> exists q int :: 0 <= q && q < len(n.UseCaseInformation[first()].UseCaseSupport) && named(n.UseCaseInformation[first()].UseCaseSupport[q], useCaseName) && *n.UseCaseInformation[first()].UseCaseSupport[q].UseCaseAvailable == useCaseAvailable && *n.UseCaseInformation[first()].UseCaseSupport[q].UseCaseVersion == useCaseVersion
+//@   modifies n.UseCaseInformation, n.UseCaseInformation[len(n.UseCaseInformation)], cells(UseCaseInformationDataType), cells(UseCaseSupportType), held
